@@ -78,6 +78,39 @@ class TSet(Ty):
         return z3.SetSort(self.elem.sort())
 
 
+class TMap(Ty):
+    """dict[K, V] as a z3 array K -> Option(V); absent keys map to none."""
+
+    kind = "map"
+
+    def __init__(self, key: Ty, val: Ty, opt: "TOpt"):
+        self.key, self.val, self.opt = key, val, opt
+
+    def sort(self):
+        return z3.ArraySort(self.key.sort(), self.opt.sort())
+
+    def none(self):
+        return getattr(self.opt.dt, f"{self.opt.dt.name()}_none")
+
+    def some(self, v):
+        return getattr(self.opt.dt, f"{self.opt.dt.name()}_some")(v)
+
+    def unsome(self, o):
+        return getattr(self.opt.dt, f"{self.opt.dt.name()}_val")(o)
+
+    def has(self, m, k):
+        return m[k] != self.none()
+
+    def get(self, m, k):
+        return self.unsome(m[k])
+
+    def empty(self):
+        return z3.K(self.key.sort(), self.none())
+
+    def __repr__(self):
+        return f"<map {self.key}->{self.val}>"
+
+
 class TOpt(Ty):
     kind = "opt"
 
@@ -169,12 +202,48 @@ class SymList:
     __bool__ = __len__ = __iter__ = __hash__ = __contains__ = __eq__ = __getitem__ = _poison
 
 
+class SymDict:
+    """A mutable Python dict whose contents are a symbolic map (item assignment rebinds the term)."""
+
+    __slots__ = ("t", "ty")
+
+    def __init__(self, t, ty: TMap):
+        self.t = t
+        self.ty = ty
+
+    def __repr__(self):
+        return f"SymDict({self.t})"
+
+    def _poison(self, *a, **k):
+        raise OutsideSubset(f"native protocol used on symbolic dict {self!r}")
+
+    __bool__ = __len__ = __iter__ = __hash__ = __contains__ = __eq__ = __getitem__ = __setitem__ = _poison
+
+
+class SymDictItems:
+    """d.items() / d.keys() of a symbolic dict (only iterable by a loop with an invariant)."""
+
+    __slots__ = ("d", "what")
+
+    def __init__(self, d, what):
+        self.d, self.what = d, what
+
+
+class SymEnum:
+    """enumerate(<symbolic sequence of unknown length>, start): only iterable by a loop with an invariant."""
+
+    __slots__ = ("seq", "start")
+
+    def __init__(self, seq, start):
+        self.seq, self.start = seq, start
+
+
 def is_sym(v):
-    return isinstance(v, (Sym, SymList))
+    return isinstance(v, (Sym, SymList, SymDict))
 
 
 def has_sym(v, _depth=0):
-    if isinstance(v, (Sym, SymList)):
+    if isinstance(v, (Sym, SymList, SymDict, SymDictItems, SymEnum)):
         return True
     if _depth > 40:
         return False
@@ -224,6 +293,7 @@ class Family:
         return [c for c in self.classes if issubclass(c, base)]
 
 
+_OPT_CACHE = {}
 _GROUP_CACHE: dict = {}
 _ENUM_CACHE: dict = {}
 _ABSTRACT_CACHE: dict = {}
@@ -399,12 +469,39 @@ class Universe:
         return TData(fam)
 
     # -- lifting Python values to z3 -------------------------------------------------------
+    def opt_of(self, inner: Ty) -> "TOpt":
+        """Option type of `inner` declared on demand (one z3 datatype per name and process)."""
+        key = f"Opt_{_sort_name(inner.sort())}"
+        o = self.opts.get(key)
+        if o is not None and o.dt is not None:
+            return o
+        dt = _OPT_CACHE.get(key)
+        if dt is None:
+            d = z3.Datatype(key)
+            d.declare(f"{key}_none")
+            d.declare(f"{key}_some", (f"{key}_val", inner.sort()))
+            dt = d.create()
+            _OPT_CACHE[key] = dt
+        o = TOpt(inner, dt)
+        self.opts[key] = o
+        return o
+
+    def map_ty(self, key: Ty, val: Ty) -> "TMap":
+        return TMap(key, val, self.opt_of(val))
+
     def lift(self, v, ty: Ty | None = None):
         """Python value (possibly containing Syms) -> z3 term."""
         if isinstance(v, Sym):
             return v.t
         if isinstance(v, SymList):
             return v.t
+        if isinstance(v, SymDict):
+            return v.t
+        if isinstance(v, dict) and isinstance(ty, TMap):
+            m = ty.empty()
+            for k, x in v.items():
+                m = z3.Store(m, self.lift(k, ty.key), ty.some(self.lift(x, ty.val)))
+            return m
         if isinstance(v, bool):
             if ty is TInt:
                 return z3.IntVal(int(v))
